@@ -56,14 +56,14 @@ def run_real(transport_text, timeout=40):
     return dict(reproduced=(m.group(1) == "true"), key=m.group(2), detail=m.group(3))
 
 
-def playback(spec, ws):
+def playback(spec, ws, cap=420):
     """returns (transport_text, native_failed, log)"""
     cmd = ["cargo", "kani", "-Z", "stubbing", "-Z", "unstable-options", "-Z", "concrete-playback",
            "--concrete-playback=inplace", "--exact", "--harness", "h::generated::" + spec.name]
     cmd += [f for f in runner.GROUP_FLAGS[spec.group] if f != "--no-assertion-reach-checks"]
     cmd += runner.CBMC_ARGS
     p = subprocess.run(cmd, cwd=ws, stdout=subprocess.PIPE, stderr=subprocess.STDOUT, env=_env(),
-                       timeout=(spec.timeout or 900) + 600)
+                       timeout=cap)
     txt = p.stdout.decode(errors="replace")
     m = re.search(r"- (kani_concrete_playback_%s_\d+)" % re.escape(spec.name), txt)
     if not m:
@@ -84,19 +84,124 @@ def playback(spec, ws):
     return "\n".join(lines), native_failed, out[-1500:]
 
 
+PLAYBACK_CAP_S = int(os.environ.get("VERIF_PLAYBACK_CAP", "420"))
+UMAX = 18446744073709551615
+
+
+def _model_g1(v=3):
+    return [0x80] + [0] * 46 + [v]
+
+
+def _model_scalar(v=7):
+    return [0] * 31 + [v]
+
+
+def _fmt(v):
+    if v is None:
+        return "None"
+    if isinstance(v, (list, tuple)):
+        return "[" + ", ".join(str(x) for x in v) + "]"
+    return str(v)
+
+
+def _idx(shape, cand, lim):
+    return {0: [], 1: [cand], 2: [0, 1], 3: [1, 0], 4: [0, 0], 5: [0, UMAX]}.get(shape, [cand, lim])
+
+
+def shape_candidates(spec):
+    """Fallback when the solver's assignment cannot be extracted in time (Kani's concrete playback of
+    a heavy harness takes tens of minutes): concrete inputs are derived from the failing query's SHAPE
+    (all its concrete parts literally) with boundary values for the symbolic parts; each candidate is
+    run on the real build and only a reproducing one is reported."""
+    sh = spec.shape
+    ent = sh.get("entry")
+    if not ent or spec.replay != "op":
+        return []
+    base = {"kind": "op", "entry": ent, "suite": sh.get("suite", "sha"), "pk": 5,
+            "sig": _model_g1() + _model_scalar(), "hdr": "None", "ph": "None"}
+    out = []
+    def proof(U):
+        return _model_g1(3) + _model_g1(4) + _model_g1(5) + sum([_model_scalar(9 + j) for j in range(4 + U)], [])
+    if ent == "verify":
+        out.append(dict(base, msgs=[1] * sh.get("L", 0)))
+    elif ent == "proof_verify":
+        U = sh.get("U", 0)
+        for cand in (0, U + 2, UMAX, UMAX - 1):
+            out.append(dict(base, proof=proof(U), msgs=[1] * sh.get("msgs", 0), idx=_idx(sh.get("index_shape", 0), cand, 1)))
+    elif ent == "blind_proof_verify" and "R1" in sh:
+        U, R1, R2 = sh.get("U", 0), sh.get("R1", 0), sh.get("R2", 0)
+        ls = ["None"] if sh.get("L") == "None" else ["Some(%d)" % v for v in (U + R1 + R2, U + R1 + R2 + 1, 1, UMAX, 0)]
+        for l in ls:
+            out.append(dict(base, proof=proof(U), msgs=[1] * R1, cmsgs=[2] * R2, idx=list(range(R1)), idx2=list(range(R2)), L=l))
+    elif ent == "blind_proof_verify":
+        U = sh.get("U", 0)
+        i1, i2 = sh.get("index_shapes", [0, 0])
+        n1, n2 = sh.get("msgs", [0, 0])
+        for cand in (0, UMAX, U + 3):
+            out.append(dict(base, proof=proof(U), msgs=[1] * n1, cmsgs=[2] * n2, idx=_idx(i1, cand, 1), idx2=_idx(i2, cand, 1), L="Some(%d)" % sh.get("L", 0)))
+    elif ent in ("blind_sign", "deserialize_and_validate_commit"):
+        n = sh.get("commitment_len", sh.get("len", 0))
+        b = []
+        if n >= 48:
+            b = _model_g1()
+            while len(b) + 32 <= n:
+                b += _model_scalar()
+        b += [1] * (n - len(b))
+        out.append(dict(base, commitment=b, msgs=[1] * sh.get("L", 0), G=sh.get("blind_generators", 0)))
+    elif ent == "verify_blind_sign":
+        out.append(dict(base, msgs=[1] * sh.get("L", 0), cmsgs=[2] * sh.get("M", 0), bf=_model_scalar(), use_bf=str(sh.get("blind_factor", "false"))))
+    elif ent == "proof_gen":
+        for cand in (0, sh.get("L", 0), UMAX):
+            out.append(dict(base, msgs=[1] * sh.get("L", 0), idx=_idx(sh.get("index_shape", 0), cand, 1)))
+    elif ent == "blind_proof_gen":
+        i1, i2 = sh.get("index_shapes", [0, 0])
+        for cand in (0, UMAX, 7):
+            out.append(dict(base, msgs=[1] * sh.get("L", 0), cmsgs=[2] * sh.get("M", 0), idx=_idx(i1, cand, 1), idx2=_idx(i2, cand, 1)))
+    elif ent == "update_signature":
+        def num(v):
+            if isinstance(v, int):
+                return v
+            v = str(v)
+            if v.startswith("usize::MAX-"):
+                return UMAX - int(v.split("-")[1])
+            return UMAX if "MAX" in v else 0
+        out.append(dict(base, old=[1], new=[2], ui=num(sh.get("update_index", 0)), n=num(sh.get("n", 0))))
+    elif ent == "Generators::create":
+        out.append(dict(base, entry="generators", count=sh.get("count", 0)))
+    return ["\n".join("TRANSPORT %s=%s" % (k, _fmt(v)) for k, v in c.items()) for c in out]
+
+
 def transport(pid, spec, result, ws):
+    tt = None
+    note = None
     try:
-        tt, native_failed, log = playback(spec, ws)
+        old_cap = spec.timeout
+        spec_timeout_backup = spec.timeout
+        tt, native_failed, log = playback(spec, ws, cap=PLAYBACK_CAP_S)
     except subprocess.TimeoutExpired:
-        return dict(reproduced=None, reason="concrete playback timed out")
-    if tt is None:
-        return dict(reproduced=None, reason="no concrete playback test generated", log=log)
-    if not tt:
-        return dict(reproduced=None, reason="harness emitted no TRANSPORT lines", native_model_replay_failed=native_failed, log=log)
-    r = run_real(tt)
-    r["native_model_replay_failed"] = native_failed
-    r["transport"] = tt.splitlines()
-    return r
+        tt, native_failed, log = None, None, ""
+        note = "Kani concrete playback exceeded %ds" % PLAYBACK_CAP_S
+    if tt:
+        r = run_real(tt)
+        r["native_model_replay_failed"] = native_failed
+        r["transport"] = tt.splitlines()
+        r["values_from"] = "solver assignment (Kani concrete playback)"
+        return r
+    # fallback: boundary candidates derived from the failing shape
+    cands = shape_candidates(spec)
+    last = None
+    for c in cands:
+        r = run_real(c)
+        last = r
+        if r.get("reproduced") is True:
+            r["transport"] = c.splitlines()
+            r["values_from"] = "shape of the failing query + boundary values (%s)" % (note or "no solver assignment extracted")
+            return r
+    if last is not None:
+        last["transport"] = cands[-1].splitlines()
+        last["values_from"] = "shape candidates, none reproduced (%s)" % (note or "no playback values")
+        return last
+    return dict(reproduced=None, reason=note or "no concrete playback test generated and no shape candidates", log=(log or "")[-600:])
 
 
 def match_known(known, pid, tr):
